@@ -1,7 +1,7 @@
 #!/bin/bash
 # every quick check against every harmless change (benign/<id>/patch.diff applied in a scratch worktree of /repo HEAD); expected: all 0
 mkdir -p /tmp/s /tmp/benignmx
-for b in $(ls /verif/benign | grep -v README); do
+for b in $(ls /verif/benign | grep -v README | grep -E -e "${ONLY:-.}"); do
   wt=/tmp/s/benign_$b
   [ -d $wt ] || { git -C /repo worktree add -q $wt HEAD && git -C $wt apply /verif/benign/$b/patch.diff || { echo "FAIL $b"; continue; }; }
 done
@@ -14,4 +14,4 @@ run_one() {
   echo "done $b: $(tr '\n' ' ' < /tmp/benignmx/$b.txt)"
 }
 export -f run_one
-ls /verif/benign | grep -v README | xargs -P 4 -I{} bash -c 'run_one {}'
+ls /verif/benign | grep -v README | grep -E -e "${ONLY:-.}" | xargs -P 4 -I{} bash -c 'run_one {}'
